@@ -45,6 +45,20 @@ CLAIMED = {
         note=_TRUST,
         technique="deterministic simulation: seeded history machine vs pristine-process reference model",
     ),
+    "C18": dict(
+        category="exploration",
+        text="Two parts. (1) Simulation: the C13 edit/solve history machine on pools with integer/binary variables and strict solves; 'raises before any solver runs' is checked as an ordering over seam events (zero solver entries and zero callbacks before the raise), also on problems reached by editing a solved problem (cached variable list / LP data); the relaxation clause uses a pristine-process solve of the same shadow state with continuous domains, compared tightly incl. the data handed to the solver. (2) Plain enumeration, labelled as such: declaration route x domain x model x method x strict, plus domain and [0,1] bounds of every element through every route.",
+        design_ref="DESIGN.md §5/C18",
+        note=_TRUST + " The route x method product is enumeration, not simulation.",
+        technique="deterministic simulation: solver-entry spy + history machine (plus an enumerated route x method table)",
+    ),
+    "C20": dict(
+        category="fault_enumeration",
+        text="Fault injection at the solver seam: an exception from {ValueError, FloatingPointError, MemoryError, KeyboardInterrupt} raised at solver entry, instead of the k-th objective/gradient/constraint/Jacobian/Hessian callback, or after SciPy returned; for the enumerated scenarios EVERY site 1..K (K from a fault-free dry run) x every class is injected; seeded runs add double faults, faults inside increased_recursion_limit, scripted callback orders and the SLSQP->trust-constr retry entry. Oracles: FAILED-or-propagate when the exception left the solver; showwarning hook identity and recursion limit after every operation; every later solve equals the pristine-process baseline.",
+        design_ref="DESIGN.md §5/C20",
+        note=_TRUST + " Fault model is the property's (solver or callback raises); asynchronous exceptions inside optyx's own frames are not injected.",
+        technique="deterministic simulation: fault enumeration at the solver seam + recovery vs pristine-process baseline",
+    ),
     "C14": dict(
         category="exploration",
         text="Seeded histories with a target model and an adversarial prefix of models reusing its variable/parameter names (other values, bounds, domains, structure, bare leaves as cache keys), drop+gc for id reuse, floods past LRU capacity (knob-shrunk in quick, default 1024/4096 in thorough). Every observation on every model equals the same observation on that model alone in a pristine forked process.",
@@ -61,7 +75,7 @@ CLAIMED = {
     ),
 }
 
-PENDING = {p: "claimed in DESIGN.md; check not built yet at this commit (work in progress)" for p in ("C18","C20")}
+PENDING = {}
 
 
 def main():
